@@ -350,6 +350,12 @@ func (s *ClientSession) handshake() error {
 func (s *ClientSession) runReadLoop() {
 	if err := s.chunkComposer.RunLoop(s.conn, s.doMsg); err != nil {
 		_ = s.dispose(err)
+		// 连接在信令交互阶段就断开了（或者对端发来了无法处理的数据），此时Start还在等待结果，需要通知它，
+		// 否则没有设置超时时间的Start会永远阻塞
+		select {
+		case s.errChan <- err:
+		default:
+		}
 	}
 }
 
